@@ -39,8 +39,8 @@ pub struct Write {
     pub maybe_dropped_at: Option<SeqNo>,
     /// Seqno of a FIFO drop that removed the table holding this write.
     pub fifo_dropped_at: Option<SeqNo>,
-    /// Write was replaced/removed by a compaction filter for snapshots above this seqno.
-    pub filtered_at: Option<(SeqNo, FilterEffect)>,
+    /// Effects of compaction filters on this entry, in order; each applies to snapshots above its seqno.
+    pub filtered: Vec<(SeqNo, FilterEffect)>,
 }
 
 #[derive(Clone, Debug, PartialEq, Eq)]
@@ -58,6 +58,25 @@ pub enum Expect {
     Exact(Option<(Vec<u8>, Option<SeqNo>)>),
     /// absent or any of these values
     AnyOf(BTreeSet<Vec<u8>>),
+}
+
+impl Write {
+    /// the filter effect a snapshot `s` observes (the last one below it), if any
+    pub fn effect_at(&self, s: SeqNo) -> Option<&FilterEffect> {
+        self.filtered.iter().filter(|(c, _)| *c < s).map(|(_, e)| e).last()
+    }
+
+    /// the value a reader at `s` would get from this entry alone (None = reads as absent)
+    pub fn value_at(&self, s: SeqNo) -> Option<Vec<u8>> {
+        if self.kind != Kind::Put {
+            return None;
+        }
+        match self.effect_at(s) {
+            Some(FilterEffect::Replace(v)) => Some(v.clone()),
+            Some(FilterEffect::Remove) => None,
+            _ => Some(self.value.clone()),
+        }
+    }
 }
 
 impl Expect {
@@ -92,7 +111,7 @@ impl Model {
             cleared_at: None,
             maybe_dropped_at: None,
             fifo_dropped_at: None,
-            filtered_at: None,
+            filtered: vec![],
         });
     }
 
@@ -119,26 +138,27 @@ impl Model {
         let Some(head) = chain.first() else {
             return Expect::Exact(None);
         };
+        let head_effect = head.effect_at(s);
         let unconstrained = head.maybe_dropped_at.is_some_and(|c| c < s)
-            || matches!(&head.filtered_at, Some((c, FilterEffect::Unconstrained)) if *c < s);
+            || matches!(head_effect, Some(FilterEffect::Unconstrained));
         if unconstrained {
             let mut set = BTreeSet::new();
             for w in &chain {
                 if w.kind == Kind::Put {
                     set.insert(w.value.clone());
-                    if let Some((_, FilterEffect::Replace(v))) = &w.filtered_at {
-                        set.insert(v.clone());
+                    for (_, e) in &w.filtered {
+                        if let FilterEffect::Replace(v) = e {
+                            set.insert(v.clone());
+                        }
                     }
                 }
             }
             return Expect::AnyOf(set);
         }
         match head.kind {
-            Kind::Put => match &head.filtered_at {
-                Some((c, FilterEffect::Replace(v))) if *c < s => {
-                    Expect::Exact(Some((v.clone(), Some(head.seqno))))
-                }
-                Some((c, FilterEffect::Remove)) if *c < s => Expect::Exact(None),
+            Kind::Put => match head_effect {
+                Some(FilterEffect::Replace(v)) => Expect::Exact(Some((v.clone(), Some(head.seqno)))),
+                Some(FilterEffect::Remove) => Expect::Exact(None),
                 _ => Expect::Exact(Some((head.value.clone(), Some(head.seqno)))),
             },
             Kind::Del | Kind::WDel => Expect::Exact(None),
